@@ -155,6 +155,19 @@ fn predictor_geometry(
     Some((row_bytes, std::cmp::max(1, pixel_bytes)))
 }
 
+// Verification-only entry points (cargo feature `verif`): direct access to the
+// predictor arithmetic without a zlib/LZW round trip.
+#[cfg(feature = "verif")]
+pub fn verif_paeth(a: u8, b: u8, c: u8) -> u8 { paeth(Wrapping(a), Wrapping(b), Wrapping(c)).0 }
+
+#[cfg(feature = "verif")]
+pub fn verif_predict(
+    decoded: Vec<u8>, predictor: usize, colors: usize, columns: usize, bitspercolumn: usize,
+) -> TransformResult {
+    let loc = locate_value((), 0, 0);
+    flate_lzw_filter(decoded, &loc, predictor, colors, columns, bitspercolumn)
+}
+
 pub struct LZWDecode<'a> {
     options: &'a Option<&'a DictT>,
 }
